@@ -431,12 +431,24 @@ func (r *rwRT) ruleIterPred() {
 		}
 		return s
 	}
-	run := func(arg AV) (outs []Outcome) {
-		in := r.interp(rwConfig{root: fn, inlineAll: true, noOracles: true})
+	var built *State // the rewriter as its own constructor makes it (fields derived from the looked-up objects included)
+	var builtR AV
+	var run func(arg AV) (outs []Outcome)
+	newIn := func(root *ssa.Function) *Interp {
+		in := r.interp(rwConfig{root: root, inlineAll: true, noOracles: true})
 		in.Fields["r.iterType"] = mk("iter", false)
 		in.OnCall = wrapOnCall(in.OnCall, func(cc *CallCtx) []Answer {
 			name, recv := "", AV(nil)
 			var rest []AV
+			if (cc.Method == "MustLookup" || cc.Fn != nil && cc.Fn.Name() == "MustLookup") && len(cc.Args) >= 1 {
+				// the loader's lookup of an API object by its qualified name
+				if q, ok := asString(cc.Args[len(cc.Args)-1]); ok {
+					if strings.HasSuffix(q, ".Iter") {
+						return []Answer{{Ret: []AV{mk("iter", false)}, NoEvent: true}}
+					}
+					return []Answer{{Ret: []AV{Sym{Name: "obj:" + q, NN: true, Uniq: true}}, NoEvent: true}}
+				}
+			}
 			switch {
 			case cc.Method != "":
 				name, recv, rest = cc.Method, cc.Recv, cc.Args
@@ -488,7 +500,33 @@ func (r *rwRT) ruleIterPred() {
 			}
 			return nil
 		})
-		outs = in.Run(newState(), fn, []AV{Sym{Name: "r", NN: true}, arg}, nil)
+		return in
+	}
+	for _, f := range r.w.FuncsOf(pathRw) {
+		if f.Signature.Recv() != nil || f.Parent() != nil || f.Signature.Results().Len() != 1 || fn.Signature.Recv() == nil ||
+			!types.Identical(f.Signature.Results().At(0).Type(), fn.Signature.Recv().Type()) || built != nil {
+			continue
+		}
+		var args []AV
+		for _, p := range f.Params {
+			args = append(args, Sym{Name: p.Name(), NN: true})
+		}
+		cin := newIn(f)
+		couts := cin.Run(newState(), f, args, nil)
+		r.account(cin)
+		if len(couts) == 1 && !couts[0].Panicked && !couts[0].St.Truncated && len(couts[0].Ret) == 1 {
+			if _, isRef := couts[0].Ret[0].(Ref); isRef {
+				built, builtR = couts[0].St, couts[0].Ret[0]
+			}
+		}
+	}
+	run = func(arg AV) (outs []Outcome) {
+		in := newIn(fn)
+		if built != nil {
+			outs = in.Run(built.clone(), fn, []AV{builtR, arg}, nil)
+		} else {
+			outs = in.Run(newState(), fn, []AV{Sym{Name: "r", NN: true}, arg}, nil)
+		}
 		r.account(in)
 		return outs
 	}
